@@ -167,3 +167,42 @@ def run(prog, chk):
                 w.append((f.qual, unparse(v)))
     chk.ob("R4.server-object-writers", "Transport", sorted(w) == [("Transport.__init__", "None"), ("Transport.start_server", "server")],
            prog.func("Transport.start_server").loc, "writers: %s" % sorted(w))
+    # R3b: the answer global_request() hands back is the answer to *that* request.  The two reply handlers are evaluated
+    # (helpers they call on self are followed): SUCCESS stores the message, FAILURE stores None - also when a success from
+    # an earlier request is still stored - and both wake the waiter.  A stale success would let request_port_forward
+    # install the handler for a forward the server refused.
+    from ..core.interp import Interp, Obj, Refuse
+    for hname, start, want in (("_parse_request_success", None, "MSG"), ("_parse_request_failure", "EARLIER-SUCCESS", None),
+                               ("_parse_request_success", "EARLIER-SUCCESS", "MSG"), ("_parse_request_failure", None, None)):
+        hf = prog.func("Transport." + hname)
+        woke = []
+        selfo = Obj(global_response=start, completion_event=Obj(set=lambda woke=woke: woke.append(1)), _log=lambda *a, **k: None)
+
+        def resolver(name, args, kw, selfo=selfo, depth=[0]):
+            if not name.startswith("self.") or name.count(".") != 1 or depth[0] > 3:
+                raise Refuse(None, "call outside the intrinsics: %s" % name)
+            m_ = prog.method("Transport", name.split(".", 1)[1], required=False)
+            if m_ is None:
+                raise Refuse(None, "no such method: %s" % name)
+            ps_ = m_.params()
+            env = {ps_[0]: selfo}
+            for p_, a_ in zip(ps_[1:], args):
+                env[p_] = a_
+            env.update(kw)
+            depth[0] += 1
+            try:
+                sub = Interp(intrinsics={"DEBUG": "DEBUG"}, arith=False, resolver=resolver)
+                kind, val = sub.call_function(m_.node, env)
+            finally:
+                depth[0] -= 1
+            if kind == "raise":
+                raise Refuse(None, "%s raised %s" % (name, val))
+            return val
+        it = Interp(intrinsics={"DEBUG": "DEBUG"}, arith=False, resolver=resolver)
+        try:
+            kind, val = it.call_function(hf.node, {hf.params()[0]: selfo, hf.params()[1]: "MSG"})
+        except Refuse as e:
+            raise AnalysisError("Transport." + hname, "not evaluable: %s" % (e,))
+        got = getattr(selfo, "global_response", "?")
+        chk.ob("R3.reply-is-this-requests", "%s:after-%s" % (hname, "nothing" if start is None else "an-earlier-success"), kind == "return" and got == want and bool(woke), hf.loc,
+               "global_response %r -> %r (want %r), waiter woken: %s" % (start, got, want, bool(woke)))
